@@ -78,6 +78,10 @@ def run(ctx):
         t1 = smtgen.app('=', [smtgen.leaf('t', 'Tree'), smtgen.app('node', [smtgen.leaf('f', 'Forest')], 'Tree')], 'Bool')
         t2 = smtgen.app('=', [smtgen.leaf('f', 'Forest'), smtgen.app('cons', [smtgen.leaf('t', 'Tree'), smtgen.leaf('nil', 'Forest')], 'Forest')], 'Bool')
         scripts.append(pre + [smtgen.T(None, [smtgen.syn('assert'), t1], None, 'syntax'), smtgen.T(None, [smtgen.syn('assert'), t2], None, 'syntax')])
+    # known finding F29: a declared function named like an operator of the oracle's lists
+    f29 = [smtgen.syn(('set-logic', 'ALL')), smtgen.syn(('declare-fun', 'member', ('Int',), 'Int')), smtgen.syn(('declare-const', 'n', 'Int')),
+           smtgen.T(None, [smtgen.syn('assert'), smtgen.app('>', [smtgen.app('member', [smtgen.leaf('1', 'Int')], 'Int'), smtgen.leaf('n', 'Int')], 'Bool')], None, 'syntax')]
+    scripts.append(f29)
     calls, meta = [], []
     unknown = wrong = 0
     for cmds in scripts:
@@ -114,7 +118,8 @@ def run(ctx):
                 unknown += 1
             elif got_s != want:
                 wrong += 1
-                ctx.violation('impl-violation', input=text, term=smtgen.render_shape(t.shape()), path=list(path),
+                ctx.violation('impl-violation', finding_key='F29-user-function-named-like-oracle-operator' if cmds is f29 else None,
+                              input=text, term=smtgen.render_shape(t.shape()), path=list(path),
                               observed=f'get_sort = {smtgen.render_shape(got_s)}', expected=f'unknown or {smtgen.render_shape(want)}',
                               how_to_replay='./check C16 --replay <file>')
             wantw = int(want[2]) if smtgen.is_bv(want) else -1
@@ -153,7 +158,7 @@ def run(ctx):
                                   observed=f'replacement {vshape} has sort {owner[vshape]}', expected=f'sort {want}')
                 continue
             calls.append((50, [w_shapes(shapes), [[w_str(n), w_shape(so)] for n, so in extra], w_shape(vshape)]))
-            meta.append(('replacement', text, (p['cls'], str(p['node']), smtgen.render_shape(vshape)), want))
+            meta.append(('replacement', text, (p['cls'], str(p['node']), smtgen.render_shape(vshape), cmds is f29), want))
     res = model.batch(calls)
     for (kind, text, info, want), got in zip(meta, res):
         if kind == 'model-width':
@@ -171,9 +176,10 @@ def run(ctx):
                 ctx.disagree('typed generator vs Spec/Typing.type_of', input=smtgen.render_shape(info.shape())[:400],
                              impl=smtgen.render_shape(want), model=None if got_s is None else smtgen.render_shape(got_s))
         else:
-            cls, node, repl = info
+            cls, node, repl, is_f29 = info
             if got_s != want:
-                ctx.violation('impl-violation', input=text, term=node, mutator=cls,
+                ctx.violation('impl-violation', finding_key='F29-user-function-named-like-oracle-operator' if is_f29 else None,
+                              input=text, term=node, mutator=cls,
                               observed=f'replacement {repl} has sort {None if got_s is None else smtgen.render_shape(got_s)}',
                               expected=f'a term of sort {smtgen.render_shape(want)}', how_to_replay='./check C16 --replay <file>')
     ctx.count('subterms with unknown sort', unknown)
